@@ -73,7 +73,8 @@ def rich_ro(rng, n, all_timed=False, dup_ids=False):
     if st is not None:
         kids.append(E('roEdStart', text=st))
     for k in range(n):
-        sid = gens.STORY_IDS[k if not (dup_ids and k == n - 1 and n > 1) else 0]
+        j = k if not (dup_ids and k == n - 1 and n > 1) else 0
+        sid = gens.STORY_IDS[j] if j < len(gens.STORY_IDS) else 'S%d' % j
         kids.append(rich_story(rng, sid, timing=rng.choice(['duration', 'text+media', 'text', 'media']) if all_timed else None))
         if rng.random() < 0.2:
             kids.append(E('roTrigger', text='x'))
